@@ -5,6 +5,7 @@ import LitexModel.Fhdl.MemoryN
 import LitexModel.Fhdl.Instance
 import LitexModel.Fhdl.SimBackend
 import LitexModel.Fhdl.ResetInsert
+import LitexModel.Fhdl.ArraySel
 /-
   Driver of C01.  Pure calls only (`call <fn> ...`), sections separated by ";".
 
@@ -473,8 +474,19 @@ def callInst (secs : List (List String)) : Option String := do
     | b :: _ => some ("diff:" ++ b)
   | _ => none
 
+/-- call arr <w> <signed 0|1> <n> ; <key values…>  ->  `arrayIndex` (model of `Evaluator._array_index`) per key. -/
+def callArr (secs : List (List String)) : Option String := do
+  match secs with
+  | [w, sg, n] :: keys :: [] =>
+    let ks ← parseInts keys
+    let w ← w.toNat?
+    let n ← n.toNat?
+    some (" ".intercalate (ks.map fun k => toString (arrayIndex w (sg == "1") n k)))
+  | _ => none
+
 def call (args : List String) : Option String :=
   match args with
+  | "arr" :: rest => callArr (splitSemi rest)
   | "inst" :: rest => callInst (splitSemi rest)
   | "mem" :: rest => callMem (splitSemi rest)
   | "memn" :: rest => callMemN (splitSemi rest)
